@@ -197,7 +197,7 @@ def gen_nearmiss(rng):
                            "0x_", "0_x1", "+_1", "-,1", ".,5", "._5", "+.,5", "-01", "+007", "0,1", "00_1", "NaN,", "Na,N",
                            "Inf_", "I_nf", "InfINITY", "1e+_5", "1+_2j", "1+Na,Nj", "1e5e5", "0e", "00e1", "0x1p3", ".j",
                            "-.5j", "-.e1", "1.j", "1_.j", "infj", "nanj", "1+infj", "-j", "+j", "1+j", "1e999", "-1e999j",
-                           "a..b", ".a.", "a.b.c", "..", "1.2.a", "a.-1", "a.+", "a.1e5"]), "fixed"
+                           "a..b", ".a.", "a.b.c", "..", "1.2.a", "a.-1", "a.+", "a.1e5", "j_", "J,", "j,_", "J__", "+j_", "-J,"]), "fixed"
     if r < 0.85:
         t = rng.choice(UNI)
         q = rng.random()
@@ -315,6 +315,12 @@ def m_infinity_word(rec, params):
             and re.search(r"Inf[iI][nN][iI][tT][yY]", "".join(c for c in t if c not in "_,")) is not None)
 
 
+def m_bare_j(rec, params):
+    """j or J followed only by separators reads as Complex 1j (the exclusion of bare j compares the unstripped text)"""
+    return (rec["key"] == "non-number-reads-as-number" and re.fullmatch(r"[jJ][_,]+", rec["input"]["text"]) is not None
+            and rec["observed"].startswith("('complex'"))
+
+
 # ------------------------------------------------------------------ main
 
 def oracle(chk, text, got, via):
@@ -363,7 +369,8 @@ def run(chk):
         "integer literals beyond CPython's 4300-digit limit are not generated (Python itself refuses them)",
     ]
     chk.matchers.update({"nonascii_numeric": m_nonascii, "leading_zero_float": m_leading_zero_float,
-                         "sep_before_digit": m_sep_before_digit, "infinity_word": m_infinity_word})
+                         "sep_before_digit": m_sep_before_digit, "infinity_word": m_infinity_word,
+                         "bare_j_separators": m_bare_j})
     chk.prove("Props/C22.v", ["Props/C22.vo", "Lit/Extract.vo"], [lit_tables.translate])
     try:
         binary = lc.build_driver()
